@@ -60,6 +60,27 @@ def resolveBlocks : List (List Tok) → Bytes → Option Bytes
     | some out => resolveBlocks bs out
     | none => none
 
+/-! ### the same meaning over arrays (linear time: used by the judge on large payloads;
+       `resolveBlocksA_eq` in Lemmas/InflateFixed.lean proves it equal to `resolveBlocks`) -/
+
+def lzCopyA (dist : Nat) : Nat → Array UInt8 → Array UInt8
+  | 0, out => out
+  | n + 1, out => lzCopyA dist n (out.push (out[out.size - dist]?.getD 0))
+
+def resolveA : List Tok → Array UInt8 → Option (Array UInt8)
+  | [], out => some out
+  | .lit b :: t, out => resolveA t (out.push b)
+  | .copy ls le ds de :: t, out =>
+    if codeOk ls le ds de && decide (copyDist ds de ≤ out.size) then
+      resolveA t (lzCopyA (copyDist ds de) (copyLen ls le) out)
+    else none
+
+def resolveBlocksA : List (List Tok) → Array UInt8 → Option (Array UInt8)
+  | [], out => some out
+  | b :: bs, out => match resolveA b out with
+    | some out => resolveBlocksA bs out
+    | none => none
+
 /-! ### bits -/
 
 /-- the low `n` bits of `v`, least significant first (extra bits, header fields: RFC 1951 3.1.1) -/
@@ -120,6 +141,15 @@ def pack : List Bool → Bytes
     and whose Adler-32 is that of `payload` -/
 def zlibFixed (blocks : List (List Tok)) (payload : Bytes) : Bytes :=
   [0x78, 0x01] ++ pack (streamBits blocks) ++ FiltersSpec.be32Bytes (FiltersSpec.adler32 payload)
+
+/-- the same stream shape as most real encoders write it: the last token list is the FINAL block
+    itself (no empty closing block) -/
+def streamBitsF : List (List Tok) → List Tok → List Bool
+  | [], last => blockBits true last
+  | b :: bs, last => blockBits false b ++ streamBitsF bs last
+
+def zlibFixedF (blocks : List (List Tok)) (last : List Tok) (payload : Bytes) : Bytes :=
+  [0x78, 0x01] ++ pack (streamBitsF blocks last) ++ FiltersSpec.be32Bytes (FiltersSpec.adler32 payload)
 
 /-! ### an executable factoriser for the generators (greedy, over a list of candidate distances) -/
 
